@@ -341,6 +341,39 @@ example : AL.keys (bipartite [10, 20, 30, 40] [[10, 20], [20, 30, 10], [30]]).g.
     AL.get? (bipartite [10, 20, 30, 40] [[10, 20], [20, 30, 10], [30]]).idToObj (.E 2) = some (.edge [30]) := by
   decide
 
+/-! ### labels that are hyperedge tuples (D54)
+
+Node labels are arbitrary hashable objects; a node may be labelled by a tuple that equals the node tuple of a hyperedge
+(`tl e = some n`).  `C10_bipartite` above is about the repaired routine, whose `obj_to_id` holds node labels only: it
+needs no hypothesis about `tl`.  The routine before the repair (`bipartiteShared`) kept both kinds of keys in one table. -/
+
+/-- Before the repair the routine was right whenever no node label equals a hyperedge tuple (all int / str labelled
+hypergraphs): same graph and same id table as the repaired routine, for which `C10_bipartite` holds. -/
+theorem C10_bipartite_shared_table_no_collision (tl : Edge → Option Nat) (nodes : List Nat) (es : List Edge)
+    (hno : ∀ e ∈ es, tl e = none) :
+    (bipartiteShared tl nodes es).g = (bipartite nodes es).g ∧
+    (bipartiteShared tl nodes es).idToObj = (bipartite nodes es).idToObj := by
+  have hmem : ∀ p ∈ es.zipIdx, tl p.1 = none := by
+    intro p hp
+    have := List.mem_zipIdx hp
+    simp at this
+    exact hno p.1 (by rw [this.2]; exact List.getElem_mem _)
+  have h := bipShared_fold_sim tl es.zipIdx hmem
+    (a := nodes.zipIdx.foldl bipNode {}) (b := nodes.zipIdx.foldl bipNode {}) ⟨rfl, rfl, fun _ => rfl⟩
+  exact ⟨h.1, h.2.1⟩
+
+/-- The hypothesis is necessary (witness of D54): nodes `1, 2, (1,2), (3,4)` (ranks 0..3), hyperedges `{1,2}` and
+`{(1,2),(3,4)}`; the node of rank 2 IS the tuple of the first hyperedge.  Before the repair the second hyperedge is
+joined to the vertex `E0` of the first hyperedge instead of the vertex `N2` of its member; the repaired routine joins
+`E1 — N2` and has no `E — E` edge. -/
+example :
+    let tl : Edge → Option Nat := fun e => if e = [0, 1] then some 2 else none
+    AL.get? (bipartiteShared tl [0, 1, 2, 3] [[0, 1], [2, 3]]).g.adj (.E 1, .E 0) = some none ∧
+    AL.get? (bipartiteShared tl [0, 1, 2, 3] [[0, 1], [2, 3]]).g.adj (.E 1, .N 2) = none ∧
+    AL.get? (bipartite [0, 1, 2, 3] [[0, 1], [2, 3]]).g.adj (.E 1, .N 2) = some none ∧
+    AL.get? (bipartite [0, 1, 2, 3] [[0, 1], [2, 3]]).g.adj (.E 1, .E 0) = none := by
+  decide
+
 /-! ## the similarity functions and the corner the Jaccard hypothesis excludes -/
 
 /-- on duplicate-free tuples `intersection` is `|A ∩ B|`, the denominator is `|A ∪ B|`, `jaccard_similarity` is their
